@@ -5,7 +5,7 @@ From Robo Require Import Prelude Str Wells Utils Labware Tips Records Partition 
   EvoCmd Program PartitionProofs.
 From Coq Require Import Lqa Permutation.
 
-Definition entry := (option string * list Q)%type.
+Notation entry := (option string * list Q)%type (only parsing).
 Definition dflt : entry := (None, []).
 
 (* ------------------------------------------------------------------------------------------ *)
@@ -694,4 +694,983 @@ Proof.
     + apply (sext_cnt_ext _ _ (fun j => hits ks kd j * n_steps rest));
         [intro j; rewrite n_steps_commit; reflexivity|].
       exact (IH _ _ _ _ _ _ H).
+Qed.
+
+(** the statement used by the property file *)
+Lemma exec_hist s ks kd acts ws kw s' e :
+  exec s ks kd acts ws kw = (s', e) ->
+  (forall j, j <> ks -> j <> kd -> nth_error (st_lw s') j = nth_error (st_lw s) j) /\
+  (forall j L, nth_error (st_lw s) j = Some L ->
+     exists L' d, nth_error (st_lw s') j = Some L' /\ lw_hist L' = lw_hist L ++ d /\
+                  Forall (fun en : entry => fst en = None) d) /\
+  (e = None ->
+   forall j L, nth_error (st_lw s) j = Some L ->
+     exists L' d, nth_error (st_lw s') j = Some L' /\ lw_hist L' = lw_hist L ++ d /\
+                  Forall (fun en : entry => fst en = None) d /\
+                  length d = (if (j =? ks)%nat then n_steps acts else 0) +
+                             (if (j =? kd)%nat then n_steps acts else 0) /\
+                  (d <> [] -> snd (last d dflt) = lw_vols L')).
+Proof.
+  intro H. destruct (exec_spext _ _ _ _ _ _ _ _ H) as (_ & Ho & Hp). split; [exact Ho|]. split.
+  - intros j L HL. destruct (Hp j L HL) as (L' & E' & d & Hh & Hf). exists L', d. auto.
+  - intro He. subst e. destruct (exec_sext _ _ _ _ _ _ _ H) as [_ Hx]. intros j L HL.
+    destruct (Hx j L HL) as (L' & d & E' & (Hh & Hf & Hc) & Hn). exists L', d.
+    split; [exact E'|]. split; [exact Hh|]. split; [exact Hf|]. split.
+    + rewrite Hn. unfold hits, hit. destruct (j =? ks)%nat; destruct (j =? kd)%nat; lia.
+    + intro Hne. destruct Hc as [[C _]|[_ C]]; [contradiction|exact C].
+Qed.
+
+(* ------------------------------------------------------------------------------------------ *)
+(** * counting the steps of a plan *)
+
+Fixpoint nsum (l : list nat) : nat := match l with [] => 0 | x :: r => x + nsum r end.
+
+Lemma nsum_app a b : nsum (a ++ b) = nsum a + nsum b.
+Proof. induction a as [|x r IH]; cbn [app nsum]; [reflexivity|]. rewrite IH. lia. Qed.
+
+Lemma nsum_map_add {A} (f g : A -> nat) l :
+  nsum (map (fun x => f x + g x) l) = nsum (map f l) + nsum (map g l).
+Proof. induction l as [|x r IH]; cbn [map nsum]; [reflexivity|]. rewrite IH. lia. Qed.
+
+Lemma nsum_map_zero {A} (l : list A) : nsum (map (fun _ => 0) l) = 0.
+Proof. induction l as [|x r IH]; cbn [map nsum]; [reflexivity|exact IH]. Qed.
+
+Lemma nsum_perm l l' : Permutation l l' -> nsum l = nsum l'.
+Proof.
+  induction 1 as [|x l l' Hp IH|x y l|l l' l'' Hp1 IH1 Hp2 IH2]; cbn [nsum]; lia.
+Qed.
+
+Lemma nsum_concat {A} (f : A -> nat) (L : list (list A)) :
+  nsum (map (fun g => nsum (map f g)) L) = nsum (map f (concat L)).
+Proof.
+  induction L as [|g r IH]; cbn [map concat nsum]; [reflexivity|].
+  rewrite map_app, nsum_app, IH. reflexivity.
+Qed.
+
+Lemma n_steps_flat_map {A} (F : A -> list action) l :
+  n_steps (flat_map F l) = nsum (map (fun x => n_steps (F x)) l).
+Proof.
+  induction l as [|x r IH]; cbn [flat_map map nsum]; [reflexivity|].
+  rewrite n_steps_app, IH. reflexivity.
+Qed.
+
+(** the [p]-th volume of a row is a positive one *)
+Definition ind (l : list Q) (p : nat) : nat :=
+  match nth_error l p with Some v => if Qltb 0 v then 1 else 0 | None => 0 end.
+
+Lemma n_steps_pass p rows :
+  n_steps (pass_steps p rows) = nsum (map (fun t => ind (snd t) p) rows).
+Proof.
+  unfold pass_steps. rewrite n_steps_flat_map. apply f_equal. apply map_ext. intro t.
+  unfold ind. destruct (nth_error (snd t) p) as [v|]; [|reflexivity].
+  destruct (Qltb 0 v); reflexivity.
+Qed.
+
+Lemma ind_sum : forall l np, length l <= np ->
+  nsum (map (ind l) (seq 0 np)) = length (filter (Qltb 0) l).
+Proof.
+  induction l as [|x xs IH]; intros np H.
+  - rewrite (map_ext (ind []) (fun _ => 0)); [apply nsum_map_zero|].
+    intros [|p]; reflexivity.
+  - destruct np as [|np]; [cbn [length] in H; lia|].
+    cbn [seq map nsum]. rewrite <- seq_shift, map_map.
+    rewrite (map_ext (fun p => ind (x :: xs) (S p)) (ind xs)) by (intro p; reflexivity).
+    rewrite IH by (cbn [length] in H; lia).
+    unfold ind at 1. cbn [nth_error filter]. destruct (Qltb 0 x); cbn [length]; lia.
+Qed.
+
+Lemma swap_sum (rows : list (string * string * list Q)) np :
+  (forall t, In t rows -> length (snd t) <= np) ->
+  nsum (map (fun p => nsum (map (fun t => ind (snd t) p) rows)) (seq 0 np)) =
+  nsum (map (fun t => length (filter (Qltb 0) (snd t))) rows).
+Proof.
+  induction rows as [|t r IH]; intro H.
+  - cbn [map nsum]. apply nsum_map_zero.
+  - cbn [map nsum].
+    rewrite (nsum_map_add (ind (snd t)) (fun p => nsum (map (fun t0 => ind (snd t0) p) r))).
+    rewrite IH by (intros t0 H0; apply H; right; exact H0).
+    rewrite (ind_sum (snd t) np) by (apply H; left; reflexivity). reflexivity.
+Qed.
+
+Lemma max_len_bound (rows : list (string * string * list Q)) t :
+  In t rows -> length (snd t) <= fold_right (fun t acc => Nat.max (length (snd t)) acc) 0 rows.
+Proof.
+  induction rows as [|x r IH]; intro H; [destruct H|]. cbn [fold_right].
+  destruct H as [H|H]; [subst x; lia|]. specialize (IH H). lia.
+Qed.
+
+(** positive entries of the volume list of a triple *)
+Definition pos_count (autosplit : bool) (m : Q) (t : triple) : nat :=
+  length (filter (Qltb 0) (vol_list autosplit m (snd t))).
+
+Lemma n_steps_group a m g : n_steps (group_plan a m g) = nsum (map (pos_count a m) g).
+Proof.
+  unfold group_plan. cbv zeta.
+  set (rows := map (fun t : triple => (fst (fst t), snd (fst t), vol_list a m (snd t))) g).
+  set (np := fold_right (fun t acc => Nat.max (length (snd t)) acc) 0 rows).
+  rewrite n_steps_app.
+  assert (Hz : forall b : bool, n_steps (if b then [Commit] else []) = 0) by (intros []; reflexivity).
+  rewrite Hz.
+  rewrite n_steps_flat_map.
+  rewrite (map_ext _ (fun p => nsum (map (fun t => ind (snd t) p) rows))).
+  - rewrite swap_sum by (intros t Ht; apply max_len_bound; exact Ht).
+    unfold rows. rewrite map_map. rewrite Nat.add_0_r. reflexivity.
+  - intro p. rewrite n_steps_app, n_steps_pass, Hz. apply Nat.add_0_r.
+Qed.
+
+(** the number of steps of a plan does not depend on the grouping *)
+Lemma n_steps_plan a m mode triples :
+  n_steps (plan a m mode triples) = nsum (map (pos_count a m) triples).
+Proof.
+  unfold plan. rewrite n_steps_flat_map.
+  rewrite (map_ext _ (fun g => nsum (map (pos_count a m) g))) by (intro g; apply n_steps_group).
+  rewrite nsum_concat. apply nsum_perm. apply Permutation_map. apply partition_by_column_perm.
+Qed.
+
+Lemma n_steps_plan_mode a m mode mode' triples :
+  n_steps (plan a m mode triples) = n_steps (plan a m mode' triples).
+Proof. rewrite !n_steps_plan. reflexivity. Qed.
+
+Lemma Qltb_pos x : (0 < x)%Q -> Qltb 0 x = true.
+Proof.
+  intro H. destruct (Qltb 0 x) eqn:E; [reflexivity|]. apply Qltb_false in E. lra.
+Qed.
+
+Lemma filter_all {A} (p : A -> bool) l : Forall (fun x => p x = true) l -> filter p l = l.
+Proof.
+  induction 1 as [|x r Hx Hr IH]; [reflexivity|]. cbn [filter]. rewrite Hx, IH. reflexivity.
+Qed.
+
+Lemma vol_list_count a m v : (0 < m)%Q ->
+  (length (vol_list a m v) - 1) + (if Qltb 0 v then 1 else 0)
+  = length (filter (Qltb 0) (vol_list a m v)).
+Proof.
+  intro Hm. unfold vol_list. destruct a.
+  - destruct (Qeq_bool v 0) eqn:E0.
+    + apply Qeq_bool_iff in E0. rewrite (partition_volume_zero v m E0).
+      assert (E : Qltb 0 v = false).
+      { destruct (Qltb 0 v) eqn:E; [|reflexivity]. apply Qltb_true in E. lra. }
+      rewrite E. reflexivity.
+    + destruct (Qltb 0 v) eqn:Ep.
+      * apply Qltb_true in Ep. destruct (partition_volume_spec v m Hm Ep) as (Hlen & Hall & _).
+        rewrite filter_all.
+        -- assert (1 <= length (partition_volume v m)) by lia. lia.
+        -- apply Forall_forall. intros x Hx. rewrite Forall_forall in Hall.
+           apply Qltb_pos. exact (proj1 (Hall x Hx)).
+      * apply Qltb_false in Ep.
+        assert (Hneg : (v < 0)%Q).
+        { apply Qnot_le_lt. intro C. assert (E : (v == 0)%Q) by lra.
+          apply Qeq_bool_iff in E. congruence. }
+        unfold partition_volume. rewrite E0.
+        assert (Elt : Qltb v m = true).
+        { destruct (Qltb v m) eqn:E; [reflexivity|]. apply Qltb_false in E. lra. }
+        rewrite Elt. cbn [filter length].
+        assert (E : Qltb 0 v = false).
+        { destruct (Qltb 0 v) eqn:E; [|reflexivity]. apply Qltb_true in E. lra. }
+        rewrite E. reflexivity.
+  - cbn [length filter]. destruct (Qltb 0 v); reflexivity.
+Qed.
+
+Lemma lvh_count_sum a m triples : (0 < m)%Q ->
+  lvh_extra a m triples + length (filter (fun t : triple => Qltb 0 (snd t)) triples)
+  = nsum (map (pos_count a m) triples).
+Proof.
+  intro Hm. induction triples as [|t r IH]; [reflexivity|].
+  unfold lvh_extra in *. cbn [fold_right map nsum filter]. unfold pos_count at 1.
+  rewrite <- (vol_list_count a m (snd t) Hm), <- IH.
+  destruct (Qltb 0 (snd t)); cbn [length]; lia.
+Qed.
+
+Lemma lvh_count a m mode triples : (0 < m)%Q ->
+  lvh_extra a m triples + length (filter (fun t : triple => Qltb 0 (snd t)) triples)
+  = n_steps (plan a m mode triples).
+Proof. intro Hm. rewrite n_steps_plan. apply lvh_count_sum. exact Hm. Qed.
+
+(* ------------------------------------------------------------------------------------------ *)
+(** * transfer *)
+
+Lemma condense_at_same s k n lab L :
+  nth_error (st_lw s) k = Some L ->
+  nth_error (st_lw (condense_at s k n lab)) k = Some (condense_log L n lab).
+Proof.
+  intro H. unfold condense_at. rewrite H. cbn [st_lw set_lw]. exact (nth_error_upd_same _ _ _ _ H).
+Qed.
+
+Lemma condense_at_other s k n lab j :
+  j <> k -> nth_error (st_lw (condense_at s k n lab)) j = nth_error (st_lw s) j.
+Proof.
+  intro H. unfold condense_at. destruct (nth_error (st_lw s) k) as [L|]; [|reflexivity].
+  cbn [st_lw set_lw]. apply nth_error_upd_other. exact H.
+Qed.
+
+Lemma condense_at_length s k n lab : length (st_lw (condense_at s k n lab)) = length (st_lw s).
+Proof.
+  unfold condense_at. destruct (nth_error (st_lw s) k) as [L|]; [|reflexivity].
+  cbn [st_lw set_lw]. apply upd_length.
+Qed.
+
+Lemma condense_at_zero s k lab : st_lw (condense_at s k 0 lab) = st_lw s.
+Proof.
+  unfold condense_at. destruct (nth_error (st_lw s) k) as [L|] eqn:E; [|reflexivity].
+  rewrite condense_log_zero. cbn [st_lw set_lw]. exact (upd_same _ _ _ E).
+Qed.
+
+Lemma comment_params w c w' e :
+  comment w c = (w', e) -> w_max w' = w_max w /\ w_autosplit w' = w_autosplit w.
+Proof.
+  unfold comment. intro H. destruct c as [s|]; [|inversion H; split; reflexivity].
+  destruct (String.eqb s ""); [inversion H; split; reflexivity|].
+  destruct (contains_char semi s); inversion H; split; reflexivity.
+Qed.
+
+(** the (source, destination, volume) triples of a transfer call *)
+Definition transfer_triples (swells dwells : arr string) (vols : arr Q) : list triple :=
+  let sw := flattenF swells in
+  let dw := flattenF dwells in
+  let vs := flattenF vols in
+  let nmax := Nat.max (length sw) (Nat.max (length dw) (length vs)) in
+  zip (zip (broadcast sw nmax) (broadcast dw nmax)) (broadcast vs nmax).
+
+Lemma transfer_ok_inv s ks swells kd dwells vols label ws pb kw s' :
+  transfer s ks swells kd dwells vols label ws pb kw = (s', None) ->
+  exists Ls Ld mode w s1,
+    nth_error (st_lw s) ks = Some Ls /\ nth_error (st_lw s) kd = Some Ld /\
+    comment (st_wl s) label = (w, None) /\
+    let triples := transfer_triples swells dwells vols in
+    let acts := plan (w_autosplit w) (w_max w) mode triples in
+    let lab := lvh_label label (lvh_extra (w_autosplit w) (w_max w) triples) in
+    exec (set_wl s w) ks kd acts ws kw = (s1, None) /\
+    s' = if (ks =? kd)%nat then condense_at s1 ks (2 * n_steps acts) lab
+         else condense_at (condense_at s1 ks (n_steps acts) lab) kd (n_steps acts) lab.
+Proof.
+  unfold transfer. intro H.
+  destruct (w_dev (st_wl s)); [| |discriminate].
+  all: destruct (nth_error (st_lw s) ks) as [Ls|] eqn:ELs; [|discriminate].
+  all: destruct (nth_error (st_lw s) kd) as [Ld|] eqn:ELd; [|discriminate].
+  all: cbv zeta in H; fold (transfer_triples swells dwells vols) in H.
+  all: match type of H with (if ?c then _ else _) = _ => destruct c end; [discriminate|].
+  all: match type of H with (if ?c then _ else _) = _ => destruct c end; [discriminate|].
+  all: match type of H with (if ?c then _ else _) = _ => destruct c end; [discriminate|].
+  all: destruct (optimize_partition_by (is_trough (lw_geom Ls)) (is_trough (lw_geom Ld)) pb)
+    as [mode|e0]; [|discriminate].
+  all: destruct (comment (st_wl s) label) as [w [e1|]] eqn:Ec; [discriminate|].
+  all: destruct (exec (set_wl s w) ks kd _ ws kw) as [s1 [e2|]] eqn:Ee; [discriminate|].
+  all: exists Ls, Ld, mode, w, s1; split; [reflexivity|]; split; [reflexivity|];
+    split; [reflexivity|]; cbv zeta; split; [exact Ee|].
+  all: destruct (ks =? kd)%nat; inversion H; reflexivity.
+Qed.
+
+(** condensing the block that a plan execution appended *)
+Lemma condense_ext1 L L1 d n lab :
+  ext1 L L1 d -> length d = n -> 1 <= n ->
+  lw_hist (condense_log L1 n lab) =
+  lw_hist L ++ [(resolve_label lab None None, lw_vols (condense_log L1 n lab))].
+Proof.
+  intros (Hh & Hf & Hc) Hd Hn.
+  rewrite (condense_log_block_label L1 n lab None _ d Hh Hd Hn Hf). rewrite condense_log_vols.
+  destruct Hc as [[C _]|[_ C]]; [subst d; cbn [length] in Hd; lia|]. rewrite C. reflexivity.
+Qed.
+
+Lemma hits_same k : hits k k k = 2.
+Proof. unfold hits, hit. rewrite Nat.eqb_refl. reflexivity. Qed.
+Lemma hits_src ks kd : ks <> kd -> hits ks kd ks = 1.
+Proof.
+  intro H. unfold hits, hit. rewrite Nat.eqb_refl.
+  destruct (Nat.eqb_spec ks kd) as [C|_]; [contradiction|reflexivity].
+Qed.
+Lemma hits_dst ks kd : ks <> kd -> hits ks kd kd = 1.
+Proof.
+  intro H. unfold hits, hit. rewrite Nat.eqb_refl.
+  destruct (Nat.eqb_spec kd ks) as [C|_]; [congruence|reflexivity].
+Qed.
+Lemma hits_other ks kd j : j <> ks -> j <> kd -> hits ks kd j = 0.
+Proof.
+  intros H1 H2. unfold hits, hit.
+  destruct (Nat.eqb_spec j ks) as [C|_]; [contradiction|].
+  destruct (Nat.eqb_spec j kd) as [C|_]; [contradiction|reflexivity].
+Qed.
+
+Lemma transfer_hist s ks swells kd dwells vols label ws pb kw s' :
+  transfer s ks swells kd dwells vols label ws pb kw = (s', None) ->
+  forall mode,
+  let triples := transfer_triples swells dwells vols in
+  let a := w_autosplit (st_wl s) in
+  let m := w_max (st_wl s) in
+  let n := n_steps (plan a m mode triples) in
+  let lab := lvh_label label (lvh_extra a m triples) in
+  (n = 0 -> st_lw s' = st_lw s) /\
+  (1 <= n ->
+   (forall j, j <> ks -> j <> kd -> nth_error (st_lw s') j = nth_error (st_lw s) j) /\
+   exists Ls Ld Ls' Ld',
+     nth_error (st_lw s) ks = Some Ls /\ nth_error (st_lw s) kd = Some Ld /\
+     nth_error (st_lw s') ks = Some Ls' /\ nth_error (st_lw s') kd = Some Ld' /\
+     lw_hist Ls' = lw_hist Ls ++ [(resolve_label lab None None, lw_vols Ls')] /\
+     lw_hist Ld' = lw_hist Ld ++ [(resolve_label lab None None, lw_vols Ld')]).
+Proof.
+  intros H mode.
+  destruct (transfer_ok_inv _ _ _ _ _ _ _ _ _ _ _ H) as (Ls & Ld & mode0 & w & s1 & ELs & ELd & Ec & Hx).
+  cbv zeta in Hx. destruct Hx as [Ee Es'].
+  destruct (comment_params _ _ _ _ Ec) as [Em Ea].
+  pose proof (exec_sext _ _ _ _ _ _ _ Ee) as X.
+  rewrite Em, Ea in X, Es'.
+  rewrite (n_steps_plan_mode _ _ mode0 mode) in X, Es'.
+  cbv zeta.
+  set (n := n_steps (plan (w_autosplit (st_wl s)) (w_max (st_wl s)) mode
+                          (transfer_triples swells dwells vols))) in *.
+  set (lab := lvh_label label (lvh_extra (w_autosplit (st_wl s)) (w_max (st_wl s))
+                                         (transfer_triples swells dwells vols))) in *.
+  assert (X' : sext s s1 (fun j => hits ks kd j * n)) by exact X. clear X.
+  split.
+  - intro Hn0. assert (E1 : st_lw s1 = st_lw s).
+    { apply nth_error_eq_ext. intro j. apply (sext_zero _ _ _ j X'). rewrite Hn0. lia. }
+    rewrite Hn0 in Es'. change (2 * 0) with 0 in Es'.
+    destruct (ks =? kd)%nat; subst s'; rewrite !condense_at_zero; exact E1.
+  - intro Hn1. destruct X' as [Hl Hx].
+    destruct (Hx ks Ls ELs) as (Ls1 & ds & Es1 & Xs & Ns).
+    destruct (Hx kd Ld ELd) as (Ld1 & dd & Ed1 & Xd & Nd).
+    assert (Hoth : forall j, j <> ks -> j <> kd -> nth_error (st_lw s1) j = nth_error (st_lw s) j).
+    { intros j H1 H2. apply (sext_zero s s1 (fun j => hits ks kd j * n) j (conj Hl Hx)).
+      rewrite hits_other by assumption. reflexivity. }
+    destruct (Nat.eqb_spec ks kd) as [E|E].
+    + subst kd. rewrite ELs in ELd. inversion ELd; subst Ld.
+      rewrite Es1 in Ed1. inversion Ed1; subst Ld1. rewrite hits_same in Ns.
+      subst s'. split.
+      * intros j H1 _. rewrite condense_at_other by exact H1. apply Hoth; exact H1.
+      * exists Ls, Ls, (condense_log Ls1 (2 * n) lab), (condense_log Ls1 (2 * n) lab).
+        pose proof (condense_at_same s1 ks (2 * n) lab Ls1 Es1) as Ec1.
+        assert (Hh : lw_hist (condense_log Ls1 (2 * n) lab) =
+                     lw_hist Ls ++ [(resolve_label lab None None,
+                                     lw_vols (condense_log Ls1 (2 * n) lab))]).
+        { apply (condense_ext1 Ls Ls1 ds (2 * n) lab Xs); lia. }
+        repeat split; assumption.
+    + rewrite (hits_src ks kd E) in Ns. rewrite (hits_dst ks kd E) in Nd.
+      subst s'. split.
+      * intros j H1 H2. rewrite condense_at_other by exact H2.
+        rewrite condense_at_other by exact H1. apply Hoth; assumption.
+      * exists Ls, Ld, (condense_log Ls1 n lab), (condense_log Ld1 n lab).
+        assert (Ec1 : nth_error (st_lw (condense_at (condense_at s1 ks n lab) kd n lab)) ks
+                      = Some (condense_log Ls1 n lab)).
+        { rewrite condense_at_other by exact E. exact (condense_at_same s1 ks n lab Ls1 Es1). }
+        assert (Ec2 : nth_error (st_lw (condense_at (condense_at s1 ks n lab) kd n lab)) kd
+                      = Some (condense_log Ld1 n lab)).
+        { apply condense_at_same. rewrite condense_at_other by congruence. exact Ed1. }
+        assert (Hh1 : lw_hist (condense_log Ls1 n lab) =
+                      lw_hist Ls ++ [(resolve_label lab None None, lw_vols (condense_log Ls1 n lab))]).
+        { apply (condense_ext1 Ls Ls1 ds n lab Xs); lia. }
+        assert (Hh2 : lw_hist (condense_log Ld1 n lab) =
+                      lw_hist Ld ++ [(resolve_label lab None None, lw_vols (condense_log Ld1 n lab))]).
+        { apply (condense_ext1 Ld Ld1 dd n lab Xd); lia. }
+        repeat split; assumption.
+Qed.
+
+(** the label that ends up in the history *)
+Lemma resolve_none_plain lab :
+  lab <> Some "first"%string -> lab <> Some "last"%string -> resolve_label lab None None = lab.
+Proof. apply resolve_plain. Qed.
+
+Lemma resolve_none_keyword lab :
+  lab = Some "first"%string \/ lab = Some "last"%string -> resolve_label lab None None = None.
+Proof. intros [E|E]; subst lab; reflexivity. Qed.
+
+(* ------------------------------------------------------------------------------------------ *)
+(** * distribute *)
+
+Lemma nth_error_upd_some {A} (l : list A) : forall k x j y,
+  nth_error l j = Some y -> nth_error (upd l k x) j = Some (if (j =? k)%nat then x else y).
+Proof.
+  intros k x j y H. destruct (Nat.eqb_spec j k) as [E|E].
+  - subst j. exact (nth_error_upd_same _ _ _ _ H).
+  - rewrite nth_error_upd_other by exact E. exact H.
+Qed.
+
+Ltac early H := solve [left; inversion H; subst; split; [discriminate|reflexivity]].
+
+(** the labware part of [distribute]: a [remove] on the source, then an [add] on the destination,
+    then (same labware) a condensation of the two entries *)
+Lemma distribute_inv s ks kd dwells a s' e :
+  distribute s ks kd dwells a = (s', e) ->
+  (e <> None /\ st_lw s' = st_lw s) \/
+  exists Ls wells vols Ls1 er,
+    nth_error (st_lw s) ks = Some Ls /\ remove Ls wells vols (d_label a) = (Ls1, er) /\
+    match er with
+    | Some _ => e <> None /\ st_lw s' = upd (st_lw s) ks Ls1
+    | None =>
+        (e <> None /\ st_lw s' = upd (st_lw s) ks Ls1) \/
+        exists Ld1 dw xv comps Ld' ea,
+          nth_error (upd (st_lw s) ks Ls1) kd = Some Ld1 /\
+          add Ld1 dw xv (d_label a) comps = (Ld', ea) /\
+          match ea with
+          | Some _ => e <> None /\ st_lw s' = upd (upd (st_lw s) ks Ls1) kd Ld'
+          | None => st_lw s' = st_lw (if (ks =? kd)%nat
+                                      then condense_at (set_lw (set_lw s ks Ls1) kd Ld') ks 2 (d_label a)
+                                      else set_lw (set_lw s ks Ls1) kd Ld')
+          end
+    end.
+Proof.
+  unfold distribute. intro H.
+  destruct (nth_error (st_lw s) ks) as [Ls|] eqn:ELs; [|early H].
+  destruct (nth_error (st_lw s) kd) as [Ld|] eqn:ELd; [|early H].
+  destruct (g_vrows (lw_geom Ls)) as [vr|]; [|early H].
+  destruct (rvol_x (d_volume a)) as [xv|]; [|early H].
+  destruct xv as [q| | |] eqn:Exv; try rewrite <- Exv in H; clear Exv; try (early H).
+  all: cbv zeta in H.
+  1: match type of H with (if ?c then _ else _) = _ => destruct c end; [early H|].
+  all: destruct (positions_of (w_dev (st_wl s)) (lw_geom Ld) (flattenF dwells)) as [ps|e0]; [|early H].
+  all: destruct (sort_Z (map Z.of_nat ps)) as [|p0 sorted']; [early H|].
+  all: match type of H with (if ?c then _ else _) = _ => destruct c end; [early H|].
+  all: destruct (remove Ls _ _ (d_label a)) as [Ls1 [er|]] eqn:Er;
+    [right; exists Ls; eexists; eexists; exists Ls1, (Some er);
+     split; [reflexivity|]; split; [exact Er|]; inversion H; subst; split; [discriminate|reflexivity]|].
+  all: right; exists Ls; eexists; eexists; exists Ls1, None; split; [reflexivity|]; split; [exact Er|].
+  all: destruct (get_well_composition Ls1 (well_id 0 (Z.to_nat (d_source_column a)))) as [c|e1];
+    [|early H].
+  all: destruct (nth_error (st_lw (set_lw s ks Ls1)) kd) as [Ld1|] eqn:ELd1; [|early H].
+  all: right.
+  all: destruct (add Ld1 _ _ (d_label a) _) as [Ld' [ea|]] eqn:Ea;
+    [exists Ld1; eexists; eexists; eexists; exists Ld', (Some ea);
+     split; [exact ELd1|]; split; [exact Ea|]; inversion H; subst; split; [discriminate|reflexivity]|].
+  all: exists Ld1; eexists; eexists; eexists; exists Ld', None;
+    split; [exact ELd1|]; split; [exact Ea|].
+  all: match type of H with
+       | match comment ?w ?l with _ => _ end = _ => destruct (comment w l) as [w1 [e2|]]
+       end; [inversion H; subst; reflexivity|].
+  all: match type of H with
+       | (let '(_, _) := ?r in _) = _ => destruct r as [w2 e3]
+       end; inversion H; subst; reflexivity.
+Qed.
+
+(** both tracking calls of a [distribute] were done: one new entry per participating labware *)
+Definition dist_full (s s' : state) (ks kd : nat) (lab : option string) : Prop :=
+  length (st_lw s') = length (st_lw s) /\
+  (forall j, j <> ks -> j <> kd -> nth_error (st_lw s') j = nth_error (st_lw s) j) /\
+  exists Ls Ld Ls' Ld',
+    nth_error (st_lw s) ks = Some Ls /\ nth_error (st_lw s) kd = Some Ld /\
+    nth_error (st_lw s') ks = Some Ls' /\ nth_error (st_lw s') kd = Some Ld' /\
+    lw_hist Ls' = lw_hist Ls ++ [(lab, lw_vols Ls')] /\
+    lw_hist Ld' = lw_hist Ld ++ [(lab, lw_vols Ld')].
+
+(** a rejected [distribute]: at most one new entry anywhere, nothing dropped *)
+Definition dist_partial (s s' : state) (ks kd : nat) (lab : option string) : Prop :=
+  length (st_lw s') = length (st_lw s) /\
+  (forall j, j <> ks -> j <> kd -> nth_error (st_lw s') j = nth_error (st_lw s) j) /\
+  forall j L, nth_error (st_lw s) j = Some L ->
+    exists L' d, nth_error (st_lw s') j = Some L' /\ lw_hist L' = lw_hist L ++ d /\
+                 length d <= 1 /\ Forall (fun en : entry => fst en = lab) d.
+
+Lemma dist_partial_same s s' ks kd lab : st_lw s' = st_lw s -> dist_partial s s' ks kd lab.
+Proof.
+  intro E. unfold dist_partial. rewrite E. split; [reflexivity|]. split; [reflexivity|].
+  intros j L HL. exists L, []. split; [exact HL|]. split; [symmetry; apply app_nil_r|].
+  split; [cbn [length]; lia|constructor].
+Qed.
+
+Lemma dist_partial_src s s' ks kd lab Ls Ls1 d :
+  nth_error (st_lw s) ks = Some Ls -> st_lw s' = upd (st_lw s) ks Ls1 ->
+  lw_hist Ls1 = lw_hist Ls ++ d -> length d <= 1 -> Forall (fun en : entry => fst en = lab) d ->
+  dist_partial s s' ks kd lab.
+Proof.
+  intros ELs E Hh Hd Hf. unfold dist_partial. rewrite E. split; [apply upd_length|]. split.
+  - intros j H1 _. apply nth_error_upd_other. exact H1.
+  - intros j L HL. rewrite (nth_error_upd_some _ ks Ls1 j L HL).
+    destruct (Nat.eqb_spec j ks) as [Ej|Ej].
+    + subst j. rewrite ELs in HL. inversion HL; subst L. exists Ls1, d. auto.
+    + exists L, []. split; [reflexivity|]. split; [symmetry; apply app_nil_r|].
+      split; [cbn [length]; lia|constructor].
+Qed.
+
+Lemma distribute_hist s ks kd dwells a s' e :
+  distribute s ks kd dwells a = (s', e) ->
+  dist_full s s' ks kd (d_label a) \/ (e <> None /\ dist_partial s s' ks kd (d_label a)).
+Proof.
+  intro H. apply distribute_inv in H.
+  destruct H as [[He E]|(Ls & wells & vols & Ls1 & er & ELs & Er & H)].
+  { right. split; [exact He|]. apply dist_partial_same. exact E. }
+  destruct er as [er|].
+  { destruct H as [He E]. right. split; [exact He|].
+    apply (dist_partial_src s s' ks kd _ Ls Ls1 [] ELs E); [|cbn [length]; lia|constructor].
+    rewrite app_nil_r. exact (remove_hist_err _ _ _ _ _ _ Er). }
+  pose proof (remove_hist_ok _ _ _ _ _ Er) as Hs1.
+  destruct H as [[He E]|(Ld1 & dw & xv & comps & Ld' & ea & ELd1 & Ea & H)].
+  { right. split; [exact He|].
+    apply (dist_partial_src s s' ks kd _ Ls Ls1 [(d_label a, lw_vols Ls1)] ELs E Hs1);
+      [cbn [length]; lia|constructor; [reflexivity|constructor]]. }
+  destruct (nth_error (st_lw s) kd) as [Ld|] eqn:ELd.
+  2:{ exfalso. apply nth_error_None in ELd.
+      assert (C : nth_error (upd (st_lw s) ks Ls1) kd = None)
+        by (apply nth_error_None; rewrite upd_length; exact ELd).
+      rewrite C in ELd1. discriminate. }
+  rewrite (nth_error_upd_some _ ks Ls1 kd Ld ELd) in ELd1.
+  destruct ea as [ea|].
+  - (* the add was rejected *)
+    destruct H as [He E]. right. split; [exact He|].
+    pose proof (add_hist_err _ _ _ _ _ _ _ Ea) as Hd'.
+    unfold dist_partial. rewrite E. split; [rewrite !upd_length; reflexivity|]. split.
+    + intros j H1 H2. rewrite !nth_error_upd_other by assumption. reflexivity.
+    + intros j L HL.
+      rewrite (nth_error_upd_some _ kd Ld' j _ (nth_error_upd_some _ ks Ls1 j L HL)).
+      destruct (Nat.eqb_spec j kd) as [Ejd|Ejd].
+      * subst j. rewrite ELd in HL. inversion HL; subst L.
+        destruct (Nat.eqb_spec kd ks) as [Eds|Eds].
+        -- subst kd. rewrite ELs in ELd. inversion ELd; subst Ld. inversion ELd1; subst Ld1.
+           exists Ld', [(d_label a, lw_vols Ls1)]. split; [reflexivity|].
+           split; [rewrite Hd'; exact Hs1|]. split; [cbn [length]; lia|].
+           constructor; [reflexivity|constructor].
+        -- inversion ELd1; subst Ld1. exists Ld', []. split; [reflexivity|].
+           split; [rewrite app_nil_r; exact Hd'|]. split; [cbn [length]; lia|constructor].
+      * destruct (Nat.eqb_spec j ks) as [Ejs|Ejs].
+        -- subst j. rewrite ELs in HL. inversion HL; subst L.
+           exists Ls1, [(d_label a, lw_vols Ls1)]. split; [reflexivity|]. split; [exact Hs1|].
+           split; [cbn [length]; lia|constructor; [reflexivity|constructor]].
+        -- exists L, []. split; [reflexivity|]. split; [symmetry; apply app_nil_r|].
+           split; [cbn [length]; lia|constructor].
+  - (* both calls were accepted *)
+    left. pose proof (add_hist_ok _ _ _ _ _ _ Ea) as Hd'.
+    destruct (Nat.eqb_spec ks kd) as [E|E].
+    + subst kd. rewrite Nat.eqb_refl in ELd1. inversion ELd1; subst Ld1.
+      rewrite ELs in ELd. inversion ELd; subst Ld.
+      assert (E2 : nth_error (st_lw (set_lw (set_lw s ks Ls1) ks Ld')) ks = Some Ld').
+      { cbn [st_lw set_lw]. apply (nth_error_upd_same _ ks Ld' Ls1).
+        exact (nth_error_upd_same _ _ _ _ ELs). }
+      pose proof (condense_at_same _ ks 2 (d_label a) Ld' E2) as E3. rewrite <- H in E3.
+      assert (Hh : lw_hist (condense_log Ld' 2 (d_label a)) =
+                   lw_hist Ls ++ [(d_label a, lw_vols (condense_log Ld' 2 (d_label a)))]).
+      { rewrite (condense_log_block_label Ld' 2 (d_label a) (d_label a) (lw_hist Ls)
+                   [(d_label a, lw_vols Ls1); (d_label a, lw_vols Ld')]).
+        - rewrite resolve_same, condense_log_vols. reflexivity.
+        - rewrite Hd', Hs1, <- app_assoc. reflexivity.
+        - reflexivity.
+        - lia.
+        - constructor; [reflexivity|]. constructor; [reflexivity|constructor]. }
+      split; [|split].
+      * rewrite H, condense_at_length. cbn [st_lw set_lw]. rewrite !upd_length. reflexivity.
+      * intros j H1 _. rewrite H, condense_at_other by exact H1. cbn [st_lw set_lw].
+        rewrite !nth_error_upd_other by exact H1. reflexivity.
+      * exists Ls, Ls, (condense_log Ld' 2 (d_label a)), (condense_log Ld' 2 (d_label a)).
+        repeat split; assumption.
+    + destruct (Nat.eqb_spec kd ks) as [C|_]; [congruence|]. inversion ELd1; subst Ld1.
+      cbn [st_lw set_lw] in H. split; [|split].
+      * rewrite H, !upd_length. reflexivity.
+      * intros j H1 H2. rewrite H, !nth_error_upd_other by assumption. reflexivity.
+      * exists Ls, Ld, Ls1, Ld'. split; [exact ELs|]. split; [exact ELd|]. split; [|split; [|split]].
+        -- rewrite H, nth_error_upd_other by exact E. exact (nth_error_upd_same _ _ _ _ ELs).
+        -- rewrite H. apply (nth_error_upd_same _ kd Ld' Ld).
+           rewrite nth_error_upd_other by congruence. exact ELd.
+        -- exact Hs1.
+        -- exact Hd'.
+Qed.
+
+Lemma distribute_hist_ok s ks kd dwells a s' :
+  distribute s ks kd dwells a = (s', None) -> dist_full s s' ks kd (d_label a).
+Proof.
+  intro H. destruct (distribute_hist _ _ _ _ _ _ _ H) as [F|[C _]]; [exact F|congruence].
+Qed.
+
+(* ------------------------------------------------------------------------------------------ *)
+(** * entries that existed before a call are never altered or dropped *)
+
+Definition keeps (l l' : list labware) : Prop :=
+  forall j L, nth_error l j = Some L ->
+    exists L' d, nth_error l' j = Some L' /\ lw_hist L' = lw_hist L ++ d.
+
+Lemma keeps_refl l : keeps l l.
+Proof. intros j L H. exists L, []. split; [exact H|symmetry; apply app_nil_r]. Qed.
+
+Lemma keeps_eq l l' : l' = l -> keeps l l'.
+Proof. intro E. subst l'. apply keeps_refl. Qed.
+
+Lemma keeps_trans l l1 l2 : keeps l l1 -> keeps l1 l2 -> keeps l l2.
+Proof.
+  intros H1 H2 j L HL. destruct (H1 j L HL) as (L1 & d1 & E1 & Hh1).
+  destruct (H2 j L1 E1) as (L2 & d2 & E2 & Hh2). exists L2, (d1 ++ d2).
+  split; [exact E2|]. rewrite Hh2, Hh1, app_assoc. reflexivity.
+Qed.
+
+Lemma keeps_upd l k L L1 :
+  nth_error l k = Some L -> (exists d, lw_hist L1 = lw_hist L ++ d) -> keeps l (upd l k L1).
+Proof.
+  intros HL [d Hd] j L0 H0. rewrite (nth_error_upd_some _ k L1 j L0 H0).
+  destruct (Nat.eqb_spec j k) as [E|E].
+  - subst j. rewrite HL in H0. inversion H0; subst L0. exists L1, d. auto.
+  - exists L0, []. split; [reflexivity|symmetry; apply app_nil_r].
+Qed.
+
+Lemma keeps_upd_any l k (f : labware -> labware) :
+  (forall L, exists d, lw_hist (f L) = lw_hist L ++ d) ->
+  forall L1, (forall L, nth_error l k = Some L -> L1 = f L) -> keeps l (upd l k L1).
+Proof.
+  intros Hf L1 H1. destruct (nth_error l k) as [L|] eqn:E.
+  - apply (keeps_upd l k L L1 E). rewrite (H1 L eq_refl). apply Hf.
+  - rewrite upd_none by exact E. apply keeps_refl.
+Qed.
+
+Lemma tracked_grows L L' label ok : tracked L L' label ok -> exists d, lw_hist L' = lw_hist L ++ d.
+Proof.
+  unfold tracked. destruct ok; intro H.
+  - eexists. exact H.
+  - exists []. rewrite app_nil_r. exact H.
+Qed.
+
+Lemma add_grows L wells vols label comps :
+  exists d, lw_hist (fst (add L wells vols label comps)) = lw_hist L ++ d.
+Proof.
+  destruct (add L wells vols label comps) as [L' e] eqn:E. cbn [fst].
+  pose proof (add_hist _ _ _ _ _ _ _ E) as H. destruct e as [e|].
+  - exists []. rewrite app_nil_r. exact H.
+  - eexists. exact H.
+Qed.
+
+Lemma remove_grows L wells vols label :
+  exists d, lw_hist (fst (remove L wells vols label)) = lw_hist L ++ d.
+Proof.
+  destruct (remove L wells vols label) as [L' e] eqn:E. cbn [fst].
+  pose proof (remove_hist _ _ _ _ _ _ E) as H. destruct e as [e|].
+  - exists []. rewrite app_nil_r. exact H.
+  - eexists. exact H.
+Qed.
+
+Lemma add_grows_eq L wells vols label comps L' e :
+  add L wells vols label comps = (L', e) -> exists d, lw_hist L' = lw_hist L ++ d.
+Proof.
+  intro E. pose proof (add_grows L wells vols label comps) as G. rewrite E in G. exact G.
+Qed.
+
+Lemma remove_grows_eq L wells vols label L' e :
+  remove L wells vols label = (L', e) -> exists d, lw_hist L' = lw_hist L ++ d.
+Proof.
+  intro E. pose proof (remove_grows L wells vols label) as G. rewrite E in G. exact G.
+Qed.
+
+Lemma on_lw_keeps s k f s' e :
+  (forall L, exists d, lw_hist (fst (f L)) = lw_hist L ++ d) ->
+  on_lw s k f = (s', e) -> keeps (st_lw s) (st_lw s').
+Proof.
+  intros Hf H. unfold on_lw in H. destruct (nth_error (st_lw s) k) as [L|] eqn:E.
+  - destruct (f L) as [L' e'] eqn:Ef. inversion H; subst. cbn [st_lw set_lw].
+    apply (keeps_upd _ k L L' E). specialize (Hf L). rewrite Ef in Hf. exact Hf.
+  - inversion H; subst. apply keeps_refl.
+Qed.
+
+Lemma on_wl_keeps s f s' e : on_wl s f = (s', e) -> keeps (st_lw s) (st_lw s').
+Proof.
+  unfold on_wl. intro H. destruct (f (st_wl s)) as [w e']. inversion H; subst. apply keeps_refl.
+Qed.
+
+Lemma aspirate_keeps s k wells vols label kw s' e :
+  aspirate s k wells vols label kw = (s', e) -> keeps (st_lw s) (st_lw s').
+Proof.
+  intro H. apply aspirate_lw in H. destruct (nth_error (st_lw s) k) as [L|] eqn:E.
+  - cbv zeta in H. destruct H as [Hlw _]. rewrite Hlw. apply (keeps_upd _ k L _ E).
+    apply remove_grows.
+  - destruct H as [Hs _]. subst s'. apply keeps_refl.
+Qed.
+
+Lemma dispense_keeps s k wells vols label comps kw s' e :
+  dispense s k wells vols label comps kw = (s', e) -> keeps (st_lw s) (st_lw s').
+Proof.
+  intro H. apply dispense_lw in H. destruct (nth_error (st_lw s) k) as [L|] eqn:E.
+  - cbv zeta in H. destruct H as [Hlw _]. rewrite Hlw. apply (keeps_upd _ k L _ E).
+    apply add_grows.
+  - destruct H as [Hs _]. subst s'. apply keeps_refl.
+Qed.
+
+Lemma evo_aspirate_keeps s k a label s' e :
+  evo_aspirate s k a label = (s', e) -> keeps (st_lw s) (st_lw s').
+Proof.
+  unfold evo_aspirate. intro H. destruct (nth_error (st_lw s) k) as [L|] eqn:E.
+  - unfold wells_vols in H. cbv beta iota zeta in H.
+    destruct (remove L _ _ label) as [L' er] eqn:Er.
+    assert (K : keeps (st_lw s) (st_lw (set_lw s k L'))).
+    { cbn [st_lw set_lw]. apply (keeps_upd _ k L L' E).
+      exact (remove_grows_eq _ _ _ _ _ _ Er). }
+    destruct er as [er|]; [inversion H; subst; exact K|].
+    destruct (comment (st_wl (set_lw s k L')) label) as [w [e1|]]; [inversion H; subst; exact K|].
+    destruct (evo_command _ _ _ a (w_max w)) as [cmd|e2]; inversion H; subst; exact K.
+  - inversion H; subst. apply keeps_refl.
+Qed.
+
+Lemma evo_dispense_keeps s k a label comps s' e :
+  evo_dispense s k a label comps = (s', e) -> keeps (st_lw s) (st_lw s').
+Proof.
+  unfold evo_dispense. intro H. destruct (nth_error (st_lw s) k) as [L|] eqn:E.
+  - unfold wells_vols in H. cbv beta iota zeta in H.
+    destruct (add L _ _ label comps) as [L' er] eqn:Er.
+    assert (K : keeps (st_lw s) (st_lw (set_lw s k L'))).
+    { cbn [st_lw set_lw]. apply (keeps_upd _ k L L' E).
+      exact (add_grows_eq _ _ _ _ _ _ _ Er). }
+    destruct er as [er|]; [inversion H; subst; exact K|].
+    destruct (comment (st_wl (set_lw s k L')) label) as [w [e1|]]; [inversion H; subst; exact K|].
+    destruct (evo_command _ _ _ a (w_max w)) as [cmd|e2]; inversion H; subst; exact K.
+  - inversion H; subst. apply keeps_refl.
+Qed.
+
+Lemma evo_wash_keeps s a s' e : evo_wash s a = (s', e) -> keeps (st_lw s) (st_lw s').
+Proof.
+  unfold evo_wash. intro H. destruct (evo_wash_cmd a) as [cmd|e0]; inversion H; subst; apply keeps_refl.
+Qed.
+
+Lemma spext_keeps s s' ks kd : spext s s' ks kd -> keeps (st_lw s) (st_lw s').
+Proof.
+  intros (_ & _ & H) j L HL. destruct (H j L HL) as (L' & E' & d & Hd & _). exists L', d. auto.
+Qed.
+
+Lemma keeps_two (l l' : list labware) ks kd Ls Ld Ls' Ld' :
+  (forall j, j <> ks -> j <> kd -> nth_error l' j = nth_error l j) ->
+  nth_error l ks = Some Ls -> nth_error l kd = Some Ld ->
+  nth_error l' ks = Some Ls' -> nth_error l' kd = Some Ld' ->
+  (exists d, lw_hist Ls' = lw_hist Ls ++ d) -> (exists d, lw_hist Ld' = lw_hist Ld ++ d) ->
+  keeps l l'.
+Proof.
+  intros Ho ELs ELd ELs' ELd' [ds Hs] [dd Hd] j L HL.
+  destruct (Nat.eq_dec j ks) as [E1|E1].
+  - subst j. rewrite ELs in HL. inversion HL; subst L. exists Ls', ds. auto.
+  - destruct (Nat.eq_dec j kd) as [E2|E2].
+    + subst j. rewrite ELd in HL. inversion HL; subst L. exists Ld', dd. auto.
+    + exists L, []. split; [rewrite Ho by assumption; exact HL|symmetry; apply app_nil_r].
+Qed.
+
+Lemma transfer_err_inv s ks swells kd dwells vols label ws pb kw s' e :
+  transfer s ks swells kd dwells vols label ws pb kw = (s', Some e) ->
+  st_lw s' = st_lw s \/
+  exists w acts, exec (set_wl s w) ks kd acts ws kw = (s', Some e).
+Proof.
+  unfold transfer. intro H.
+  destruct (w_dev (st_wl s)); [| |left; inversion H; reflexivity].
+  all: destruct (nth_error (st_lw s) ks) as [Ls|] eqn:ELs; [|left; inversion H; reflexivity].
+  all: destruct (nth_error (st_lw s) kd) as [Ld|] eqn:ELd; [|left; inversion H; reflexivity].
+  all: cbv zeta in H.
+  all: match type of H with (if ?c then _ else _) = _ => destruct c end;
+    [left; inversion H; reflexivity|].
+  all: match type of H with (if ?c then _ else _) = _ => destruct c end;
+    [left; inversion H; reflexivity|].
+  all: match type of H with (if ?c then _ else _) = _ => destruct c end;
+    [left; inversion H; reflexivity|].
+  all: destruct (optimize_partition_by (is_trough (lw_geom Ls)) (is_trough (lw_geom Ld)) pb)
+    as [mode|e0]; [|left; inversion H; reflexivity].
+  all: destruct (comment (st_wl s) label) as [w [e1|]] eqn:Ec; [left; inversion H; reflexivity|].
+  all: destruct (exec (set_wl s w) ks kd _ ws kw) as [s1 [e2|]] eqn:Ee;
+    [right; inversion H; subst; eexists; eexists; exact Ee|].
+  all: destruct (ks =? kd)%nat; discriminate.
+Qed.
+
+Lemma transfer_keeps s ks swells kd dwells vols label ws pb kw s' e :
+  transfer s ks swells kd dwells vols label ws pb kw = (s', e) -> keeps (st_lw s) (st_lw s').
+Proof.
+  intro H. destruct e as [e|].
+  - destruct (transfer_err_inv _ _ _ _ _ _ _ _ _ _ _ _ H) as [E|(w & acts & Ee)].
+    + apply keeps_eq. exact E.
+    + apply exec_spext in Ee. exact (spext_keeps _ _ _ _ Ee).
+  - destruct (transfer_hist _ _ _ _ _ _ _ _ _ _ _ H BySource) as [H0 H1]. cbv zeta in H0, H1.
+    destruct (Nat.eq_dec (n_steps (plan (w_autosplit (st_wl s)) (w_max (st_wl s)) BySource
+                                        (transfer_triples swells dwells vols))) 0) as [E|E].
+    + apply keeps_eq. exact (H0 E).
+    + destruct H1 as (Ho & Ls & Ld & Ls' & Ld' & ELs & ELd & ELs' & ELd' & Hs & Hd); [lia|].
+      apply (keeps_two _ _ ks kd Ls Ld Ls' Ld' Ho ELs ELd ELs' ELd'); eexists; eassumption.
+Qed.
+
+Lemma distribute_keeps s ks kd dwells a s' e :
+  distribute s ks kd dwells a = (s', e) -> keeps (st_lw s) (st_lw s').
+Proof.
+  intro H. destruct (distribute_hist _ _ _ _ _ _ _ H) as [F|[_ P]].
+  - destruct F as (_ & Ho & Ls & Ld & Ls' & Ld' & ELs & ELd & ELs' & ELd' & Hs & Hd).
+    apply (keeps_two _ _ ks kd Ls Ld Ls' Ld' Ho ELs ELd ELs' ELd'); eexists; eassumption.
+  - destruct P as (_ & _ & P). intros j L HL. destruct (P j L HL) as (L' & d & E' & Hd & _).
+    exists L', d. auto.
+Qed.
+
+(** every call except a condensation of one or more entries *)
+Definition safe_op (o : op) : Prop :=
+  match o with OCondense _ n _ => n = 0 | _ => True end.
+
+Lemma step_keeps s o s' e : safe_op o -> step s o = (s', e) -> keeps (st_lw s) (st_lw s').
+Proof.
+  intros Hsafe H. destruct o; cbn [step] in H.
+  - apply (on_lw_keeps _ _ _ _ _ (fun L => add_grows L wells vols label comps) H).
+  - apply (on_lw_keeps _ _ _ _ _ (fun L => remove_grows L wells vols label) H).
+  - cbn [safe_op] in Hsafe. subst n. refine (on_lw_keeps _ _ _ _ _ _ H).
+    intro L. exists []. cbn [fst]. rewrite condense_log_zero, app_nil_r. reflexivity.
+  - exact (aspirate_keeps _ _ _ _ _ _ _ _ H).
+  - exact (dispense_keeps _ _ _ _ _ _ _ _ _ H).
+  - exact (transfer_keeps _ _ _ _ _ _ _ _ _ _ _ _ H).
+  - exact (distribute_keeps _ _ _ _ _ _ _ H).
+  - exact (on_wl_keeps _ _ _ _ H).
+  - exact (on_wl_keeps _ _ _ _ H).
+  - exact (on_wl_keeps _ _ _ _ H).
+  - exact (on_wl_keeps _ _ _ _ H).
+  - exact (on_wl_keeps _ _ _ _ H).
+  - exact (on_wl_keeps _ _ _ _ H).
+  - exact (on_wl_keeps _ _ _ _ H).
+  - exact (on_wl_keeps _ _ _ _ H).
+  - exact (on_wl_keeps _ _ _ _ H).
+  - destruct (w_dev (st_wl s)); try (inversion H; subst; apply keeps_refl).
+    exact (evo_aspirate_keeps _ _ _ _ _ _ H).
+  - destruct (w_dev (st_wl s)); try (inversion H; subst; apply keeps_refl).
+    exact (evo_dispense_keeps _ _ _ _ _ _ _ H).
+  - destruct (w_dev (st_wl s)); try (inversion H; subst; apply keeps_refl).
+    exact (evo_wash_keeps _ _ _ _ H).
+Qed.
+
+Lemma run_keeps : forall ops s s' es,
+  Forall safe_op ops -> run s ops = (s', es) -> keeps (st_lw s) (st_lw s').
+Proof.
+  induction ops as [|o r IH]; intros s s' es Hs H; cbn [run] in H.
+  - inversion H; subst. apply keeps_refl.
+  - inversion Hs as [|? ? Ho Hr]; subst.
+    destruct (step s o) as [s1 e] eqn:E1. destruct (run s1 r) as [s2 es2] eqn:E2.
+    inversion H; subst.
+    exact (keeps_trans _ _ _ (step_keeps _ _ _ _ Ho E1) (IH _ _ _ Hr E2)).
+Qed.
+
+(** the same in the "first entries are the old entries" form *)
+Definition old_entries_kept (l l' : list labware) : Prop :=
+  forall j L, nth_error l j = Some L ->
+    exists L', nth_error l' j = Some L' /\
+               length (lw_hist L) <= length (lw_hist L') /\
+               firstn (length (lw_hist L)) (lw_hist L') = lw_hist L.
+
+Lemma keeps_old l l' : keeps l l' -> old_entries_kept l l'.
+Proof.
+  intros H j L HL. destruct (H j L HL) as (L' & d & E' & Hd). exists L'. split; [exact E'|].
+  rewrite Hd. split; [rewrite app_length; lia|apply firstn_prefix].
+Qed.
+
+Lemma step_old s o s' e : safe_op o -> step s o = (s', e) -> old_entries_kept (st_lw s) (st_lw s').
+Proof. intros Hs H. apply keeps_old. exact (step_keeps _ _ _ _ Hs H). Qed.
+
+Lemma run_old ops s s' es :
+  Forall safe_op ops -> run s ops = (s', es) -> old_entries_kept (st_lw s) (st_lw s').
+Proof. intros Hs H. apply keeps_old. exact (run_keeps _ _ _ _ Hs H). Qed.
+
+(* ------------------------------------------------------------------------------------------ *)
+(** * the statements in the form used by Props/C11.v *)
+
+Lemma condense_plain L n label :
+  1 <= n -> n <= length (lw_hist L) ->
+  label <> Some "first"%string -> label <> Some "last"%string ->
+  lw_hist (condense_log L n label) =
+  firstn (length (lw_hist L) - n) (lw_hist L) ++ [(label, snd (last (lw_hist L) (None, [])))].
+Proof.
+  intros Hn _ H1 H2. rewrite condense_log_hist by exact Hn.
+  rewrite resolve_plain by assumption. reflexivity.
+Qed.
+
+Lemma condense_last L n :
+  1 <= n -> n <= length (lw_hist L) ->
+  lw_hist (condense_log L n (Some "last"%string)) =
+  firstn (length (lw_hist L) - n) (lw_hist L) ++ [last (lw_hist L) (None, [])].
+Proof.
+  intros Hn _. rewrite condense_log_hist by exact Hn. rewrite resolve_last.
+  unfold dflt. destruct (last (lw_hist L) (None, [])) as [lb st]. reflexivity.
+Qed.
+
+Lemma condense_first L n :
+  1 <= n -> n <= length (lw_hist L) ->
+  lw_hist (condense_log L n (Some "first"%string)) =
+  firstn (length (lw_hist L) - n) (lw_hist L) ++
+  [(match fst (nth (length (lw_hist L) - n) (lw_hist L) (None, [])) with
+    | Some f => if String.eqb f "last" then fst (last (lw_hist L) (None, [])) else Some f
+    | None => None
+    end,
+    snd (last (lw_hist L) (None, [])))].
+Proof.
+  intros Hn _. rewrite condense_log_hist by exact Hn. rewrite resolve_first. unfold dflt.
+  destruct (fst (nth (length (lw_hist L) - n) (lw_hist L) (None, []))) as [f|]; reflexivity.
+Qed.
+
+Lemma condense_fields L n label :
+  lw_vols (condense_log L n label) = lw_vols L /\ lw_comp (condense_log L n label) = lw_comp L /\
+  lw_name (condense_log L n label) = lw_name L /\ lw_geom (condense_log L n label) = lw_geom L /\
+  lw_min (condense_log L n label) = lw_min L /\ lw_max (condense_log L n label) = lw_max L.
+Proof.
+  split; [apply condense_log_vols|]. split; [apply condense_log_comp|]. apply condense_log_static.
+Qed.
+
+Lemma aspirate_spec s k wells vols label kw s' e :
+  aspirate s k wells vols label kw = (s', e) ->
+  length (st_lw s') = length (st_lw s) /\
+  (forall j, j <> k -> nth_error (st_lw s') j = nth_error (st_lw s) j) /\
+  (nth_error (st_lw s) k = None -> s' = s /\ e = Some EReject) /\
+  forall L, nth_error (st_lw s) k = Some L ->
+    exists L' er,
+      remove L (A1 (fst (wells_vols wells vols))) (A1 (snd (wells_vols wells vols))) label = (L', er) /\
+      nth_error (st_lw s') k = Some L' /\
+      (er = None -> lw_hist L' = lw_hist L ++ [(label, lw_vols L')]) /\
+      (forall e0, er = Some e0 -> lw_hist L' = lw_hist L /\ e = Some e0) /\
+      (e = None -> lw_hist L' = lw_hist L ++ [(label, lw_vols L')]).
+Proof.
+  intro H. destruct (aspirate_hist _ _ _ _ _ _ _ _ H) as (Hl & Ho & Hn & Hs).
+  split; [exact Hl|]. split; [exact Ho|]. split; [exact Hn|]. intros L HL.
+  destruct (Hs L HL) as (E & T & Hok & Herr). cbv zeta in E, T, Hok, Herr.
+  destruct (remove L _ _ label) as [L' er] eqn:Er. cbn [fst snd] in *.
+  exists L', er. split; [reflexivity|]. split; [exact E|]. unfold tracked in T. split; [|split].
+  - intro C. subst er. exact T.
+  - intros e0 C. subst er. split; [exact T|]. apply Herr. reflexivity.
+  - intro C. rewrite (Hok C) in T. exact T.
+Qed.
+
+Lemma dispense_spec s k wells vols label comps kw s' e :
+  dispense s k wells vols label comps kw = (s', e) ->
+  length (st_lw s') = length (st_lw s) /\
+  (forall j, j <> k -> nth_error (st_lw s') j = nth_error (st_lw s) j) /\
+  (nth_error (st_lw s) k = None -> s' = s /\ e = Some EReject) /\
+  forall L, nth_error (st_lw s) k = Some L ->
+    exists L' er,
+      add L (A1 (fst (wells_vols wells vols))) (A1 (snd (wells_vols wells vols))) label comps = (L', er) /\
+      nth_error (st_lw s') k = Some L' /\
+      (er = None -> lw_hist L' = lw_hist L ++ [(label, lw_vols L')]) /\
+      (forall e0, er = Some e0 -> lw_hist L' = lw_hist L /\ e = Some e0) /\
+      (e = None -> lw_hist L' = lw_hist L ++ [(label, lw_vols L')]).
+Proof.
+  intro H. destruct (dispense_hist _ _ _ _ _ _ _ _ _ H) as (Hl & Ho & Hn & Hs).
+  split; [exact Hl|]. split; [exact Ho|]. split; [exact Hn|]. intros L HL.
+  destruct (Hs L HL) as (E & T & Hok & Herr). cbv zeta in E, T, Hok, Herr.
+  destruct (add L _ _ label comps) as [L' er] eqn:Er. cbn [fst snd] in *.
+  exists L', er. split; [reflexivity|]. split; [exact E|]. unfold tracked in T. split; [|split].
+  - intro C. subst er. exact T.
+  - intros e0 C. subst er. split; [exact T|]. apply Herr. reflexivity.
+  - intro C. rewrite (Hok C) in T. exact T.
+Qed.
+
+Lemma transfer_length s ks swells kd dwells vols label ws pb kw s' :
+  transfer s ks swells kd dwells vols label ws pb kw = (s', None) ->
+  length (st_lw s') = length (st_lw s).
+Proof.
+  intro H.
+  destruct (transfer_ok_inv _ _ _ _ _ _ _ _ _ _ _ H) as (Ls & Ld & mode0 & w & s1 & _ & _ & _ & Hx).
+  cbv zeta in Hx. destruct Hx as [Ee Es']. destruct (exec_sext _ _ _ _ _ _ _ Ee) as [Hl _].
+  change (st_lw (set_wl s w)) with (st_lw s) in Hl.
+  destruct (ks =? kd)%nat; subst s'; rewrite !condense_at_length; exact Hl.
+Qed.
+
+Lemma transfer_spec s ks swells kd dwells vols label ws pb kw s' :
+  transfer s ks swells kd dwells vols label ws pb kw = (s', None) ->
+  forall mode,
+  let triples := transfer_triples swells dwells vols in
+  let a := w_autosplit (st_wl s) in
+  let m := w_max (st_wl s) in
+  let n := n_steps (plan a m mode triples) in
+  let lab := lvh_label label (lvh_extra a m triples) in
+  (n = 0 -> st_lw s' = st_lw s) /\
+  (1 <= n -> lab <> Some "first"%string -> lab <> Some "last"%string ->
+   dist_full s s' ks kd lab) /\
+  (1 <= n -> lab = Some "first"%string \/ lab = Some "last"%string ->
+   dist_full s s' ks kd None).
+Proof.
+  intros H mode. destruct (transfer_hist _ _ _ _ _ _ _ _ _ _ _ H mode) as [H0 H1].
+  pose proof (transfer_length _ _ _ _ _ _ _ _ _ _ _ H) as Hl.
+  cbv zeta in *. split; [exact H0|]. split.
+  - intros Hn N1 N2. destruct (H1 Hn) as [Ho Hex]. rewrite resolve_none_plain in Hex by assumption.
+    split; [exact Hl|]. split; [exact Ho|exact Hex].
+  - intros Hn K. destruct (H1 Hn) as [Ho Hex]. rewrite resolve_none_keyword in Hex by exact K.
+    split; [exact Hl|]. split; [exact Ho|exact Hex].
+Qed.
+
+Lemma lvh_label_spec :
+  (forall label, lvh_label label 0 = label) /\
+  (forall l k, 0 < k -> l <> EmptyString ->
+     lvh_label (Some l) k = Some (l ++ " (" ++ dec k ++ " LVH steps)")%string) /\
+  (forall k, 0 < k -> lvh_label (Some EmptyString) k = Some (dec k ++ " LVH steps")%string) /\
+  (forall k, 0 < k -> lvh_label None k = Some (dec k ++ " LVH steps")%string).
+Proof.
+  split; [exact lvh_label_zero|]. split; [exact lvh_label_some|].
+  split; [exact lvh_label_empty|exact lvh_label_none].
 Qed.
